@@ -10,6 +10,7 @@ import (
 	"reflect"
 	"regexp"
 	"strings"
+	"time"
 
 	"github.com/iotaledger/hive.go/serializer/v2/serix"
 	"verif/harness/internal/sergen"
@@ -406,6 +407,9 @@ func signature(n node) string {
 	case sergen.Custom:
 		return pre + "custom-" + s.T.Name()
 	case sergen.Slice, sergen.Map:
+		if s.Elem.ZeroWidth() && (s.Kind == sergen.Slice || s.Key.ZeroWidth()) {
+			return pre + s.Kind.String() + "-of-zero-width"
+		}
 		return pre + s.Kind.String() + "-of-" + s.Elem.Kind.String()
 	}
 	return pre + s.Kind.String()
@@ -471,10 +475,9 @@ func runCase(st *stats, u *sergen.Universe, shapeIdx int, s *sergen.Shape, v *se
 }
 
 func runSerix(c *vf.Ctx, a *agg, workers int) {
-	nUni := c.Pick(260, 5200)
-	nVals := c.Pick(40, 40)
+	nUni := c.Pick(800, 16000)
 	base := c.Rand("serix-universes").Int63()
-	// static universe
+	// static universe (in the parent: its types are fixed, nothing can grow without bound)
 	{
 		st := newStats()
 		u := sergen.NewStatic()
@@ -483,14 +486,49 @@ func runSerix(c *vf.Ctx, a *agg, workers int) {
 		}
 		a.merge(st)
 	}
-	vf.Parallel(nUni, workers, func(i int) {
+	// dynamic universes: in child processes with an address-space limit, so that a decoder that
+	// asks for gigabytes on the bytes Encode just produced kills a child and not the check
+	vf.Parallel(workers, workers, func(w int) {
+		res := c.RunChild(vf.ChildOpts{Name: "serix", Args: []string{fmt.Sprint(base), fmt.Sprint(w), fmt.Sprint(workers), fmt.Sprint(nUni)},
+			MemKB: 3 << 20, Timeout: time.Duration(c.Pick(4, 20)) * time.Minute})
+		switch {
+		case res.TimedOut:
+			c.Inconclusive(fmt.Sprintf("serix child %d hit the watchdog at %s", w, res.LastMark))
+		case res.ExitCode != 0:
+			var useed int64
+			var si int
+			fmt.Sscanf(res.LastMark, "universe %d shape %d", &useed, &si)
+			if strings.Contains(res.Stderr, "hive.go/serializer") {
+				c.Violation("bin:decode-killed-process", fmt.Sprintf("the process died (%s) inside hive.go/serializer while round-tripping values of %s", res.Fatal, res.LastMark),
+					replayRec{Part: "serix", USeed: useed, ShapeIdx: si, ValIdx: -1, Detail: res.Fatal})
+			} else {
+				c.Inconclusive(fmt.Sprintf("serix child %d died (%s, exit %d) at %s", w, res.Fatal, res.ExitCode, res.LastMark))
+			}
+		}
+	})
+}
+
+// child: universes start, start+stride, … < n
+func serixChild(c *vf.Ctx) {
+	var base int64
+	var start, stride, n int
+	fmt.Sscan(c.ChildArgs[0], &base)
+	fmt.Sscan(c.ChildArgs[1], &start)
+	fmt.Sscan(c.ChildArgs[2], &stride)
+	fmt.Sscan(c.ChildArgs[3], &n)
+	a := &agg{c: c}
+	for i := start; i < n; i += stride {
 		st := newStats()
 		u := sergen.NewDynamic(base + int64(i))
 		for si, s := range u.Shapes {
-			exercise(st, u, si, s, nVals)
+			c.Mark(fmt.Sprintf("universe %d shape %d", u.Seed, si))
+			exercise(st, u, si, s, 40)
 		}
 		a.merge(st)
-	})
+		if i%(8*stride) == start {
+			c.FlushStats()
+		}
+	}
 }
 
 func exercise(st *stats, u *sergen.Universe, si int, s *sergen.Shape, nVals int) {
